@@ -261,6 +261,9 @@ def body_wiring(env):
             r = dassh.Reactor(dassh.DASSH_Input(inp), path=os.path.join(d, 'out'), write_output=False)
     finally:
         shutil.rmtree(d, ignore_errors=True)
+    env.holds('the two assemblies of the type write their pin temperatures to arrays of their own',
+              r.assemblies[0].rodded.pin_temps is not r.assemblies[1].rodded.pin_temps
+              and not np.shares_memory(r.assemblies[0].rodded.pin_temps, r.assemblies[1].rodded.pin_temps), key='pin_temperatures_shared_between_assemblies')
     for a, asm in enumerate(r.assemblies):
         pm_ = asm.rodded.pin_model
 
